@@ -1270,6 +1270,19 @@ def tAfter (t : Tree.Tree) (p old new : Nat) : Tree.Tree :=
   let t4 := adopt (swapLabels (Tree.removeCore0 t p old) new old) p new
   if old ∈ t.starting p then { t4 with starting := updF t4.starting p (t4.starting p ++ [new]) } else t4
 
+theorem linksOf_error_ne_ok (w : W) (p old new : Nat) (e : Err) (h : linksOf w p old new = .error e) :
+    e ≠ .ok := by
+  unfold linksOf at h
+  split at h
+  · split at h
+    · cases h
+    · cases h; decide
+  · split at h
+    · cases h; decide
+    · split at h
+      · cases h; decide
+      · cases h
+
 theorem compReplace_ok_shape (fuel : Nat) (w : W) (p old new : Nat) (w' : W)
     (h : compReplace (Cfg.repaired fuel) w p old new = (w', .ok)) :
     w.t.parent old = some p ∧ w.t.parent new = none ∧ nodeConnected w new = false ∧
@@ -1297,7 +1310,10 @@ theorem compReplace_ok_shape (fuel : Nat) (w : W) (p old new : Nat) (w' : W)
           simp only [hpre] at h
           have hadopt := (adoptPre_ok_iff _ _ _ _).mp hpre
           cases hl : linksOf w p old new with
-          | error e => simp [hl] at h
+          | error e =>
+            exfalso
+            simp only [hl, Prod.mk.injEq] at h
+            exact linksOf_error_ne_ok w p old new e hl h.2
           | ok links =>
             simp only [hl] at h
             by_cases h4 : linksValid w links = false
@@ -1322,22 +1338,211 @@ theorem compReplace_ok_shape (fuel : Nat) (w : W) (p old new : Nat) (w' : W)
               | ok =>
                 obtain ⟨f, hf⟩ := hsh w1 rfl
                 have hflag := hfl w1 rfl
-                dsimp only at h
                 subst hf
                 have hok := adoptRefusal_after_removal fuel w.t p old new hadopt
                 unfold commit at h
                 simp only [seated, if_true] at h
-                dsimp only at h
                 rw [hok] at h
-                simp only [if_true] at h
                 refine ⟨by simpa using h1, by simpa using h2, by simpa using h3, hadopt, links, f, rfl,
                   by simpa using h4, hflag, ?_⟩
                 simp only [Prod.mk.injEq, and_true] at h
                 rw [← h]
                 unfold tAfter
                 simp only [decide_eq_true_eq]
-                split <;> rfl
               | _ => simp at h
         | _ => simp [hpre] at h
+
+/-! ## inheritance -/
+
+/-- the channel tables agree with the `owner` function; stand-ins are distinct -/
+structure Tables (w : W) (old new : Nat) : Prop where
+  oldOwn : ∀ c, c ∈ (w.io old).all ↔ w.g.owner c = old
+  newOwn : ∀ c, c ∈ (w.io new).all ↔ w.g.owner c = new
+  oldKind : w.t.kind old ≠ .workflow
+  inj : ∀ e e', e ∈ standIns w new old → e' ∈ standIns w new old → e.2 = e'.2 → e.1 = e'.1
+
+theorem ioPairs_cover (w : W) (me other : Nat) (h1 : w.t.kind me ≠ .workflow) (h2 : w.t.kind other ≠ .workflow)
+    (oc : Nat) (hoc : oc ∈ (w.io other).all) : ∃ my, (my, oc) ∈ ioPairs w me other := by
+  unfold ioPairs panels
+  simp only [h1, h2, if_false]
+  simp only [NodeIO.all, List.mem_append] at hoc
+  refine ⟨_, List.mem_flatMap.mpr ?_⟩
+  rcases hoc with ((hoc | hoc) | hoc) | hoc
+  · exact ⟨((w.io me).inp, (w.io other).inp), by simp, List.mem_map.mpr ⟨oc, hoc, rfl⟩⟩
+  · exact ⟨((w.io me).out, (w.io other).out), by simp, List.mem_map.mpr ⟨oc, hoc, rfl⟩⟩
+  · exact ⟨((w.io me).sin, (w.io other).sin), by simp, List.mem_map.mpr ⟨oc, hoc, rfl⟩⟩
+  · exact ⟨((w.io me).sout, (w.io other).sout), by simp, List.mem_map.mpr ⟨oc, hoc, rfl⟩⟩
+
+theorem standIns_congr (w : W) (g1 : G) (f : Nat → Option Nat) (new old : Nat)
+    (hsame : ∀ oc, oc ∈ (w.io old).all → g1.conns oc = w.g.conns oc) :
+    standIns { w with g := g1, val := f } new old = standIns w new old := by
+  unfold standIns
+  show List.filterMap _ (ioPairs w new old) = _
+  apply List.filterMap_congr
+  intro mo hmo
+  have := (mem_ioPairs w new old mo.1 mo.2 hmo).1
+  show (if (g1.conns mo.2).isEmpty then none else _) = _
+  rw [hsame mo.2 this]
+
+theorem unconnected_of (w : W) (new : Nat) (htab : ∀ c, c ∈ (w.io new).all ↔ w.g.owner c = new)
+    (h : nodeConnected w new = false) : ∀ c, w.g.owner c = new → w.g.conns c = [] := by
+  intro c hc
+  unfold nodeConnected at h
+  have := List.any_eq_false.mp h c ((htab c).mpr hc)
+  simpa using this
+
+theorem seatCtx_of (fuel : Nat) (w : W) (p old new : Nat) (f : Nat → Option Nat) (hinv : Inv w.g)
+    (htab : Tables w old new) (hself : NoSelfConn w.g old)
+    (hpo : w.t.parent old = some p) (hpn : w.t.parent new = none) (hcn : nodeConnected w new = false)
+    (hadopt : adoptRefusal fuel w.t p new = .ok)
+    (hflag : (copyPairs true w.g true (ioPairs w new old) []).2.2 = false) :
+    SeatCtx w.g { w with g := (copyPairs true w.g true (ioPairs w new old) []).1, val := f } old new := by
+  have hne : old ≠ new := by intro e; rw [e, hpn] at hpo; cases hpo
+  have hun := unconnected_of w new htab.newOwn hcn
+  have hps : PairsOwned w.g old new (ioPairs w new old) := by
+    intro my oc hm
+    obtain ⟨h1, h2⟩ := mem_ioPairs w new old my oc hm
+    exact ⟨(htab.oldOwn oc).mp h1, fun m hmy => (htab.newOwn m).mp (h2 m hmy)⟩
+  have hci := copyPairs_copyInv w.g old new true true (ioPairs w new old) hinv hne hself hun hps
+  have hst : standIns { w with g := (copyPairs true w.g true (ioPairs w new old) []).1, val := f } new old
+      = standIns w new old :=
+    standIns_congr w _ f new old (fun oc hoc => hci.oldSame oc ((htab.oldOwn oc).mp hoc))
+  have hkn : w.t.kind new ≠ .workflow := ((adoptRefusal_ok_iff _ _ _ _).mp hadopt).2
+  refine ⟨hci, hne, hself, ?_, ?_, ?_⟩
+  · intro oc nc hm
+    rw [hst] at hm
+    obtain ⟨hio, _⟩ := mem_standIns w new old oc nc hm
+    exact hps (some nc) oc hio |>.imp id (fun h => h nc rfl)
+  · intro oc ho hcon
+    rw [hst]
+    obtain ⟨my, hmy⟩ := ioPairs_cover w new old hkn htab.oldKind oc ((htab.oldOwn oc).mpr ho)
+    cases my with
+    | none =>
+      exfalso
+      exact hcon (copyPairs_hard_counterparts w.g old new true hne hself hun (ioPairs w new old) w.g []
+        (CopyInv.init w.g old new hinv hun) hps hflag oc hmy)
+    | some nc => exact ⟨nc, standIns_of w new old oc nc hmy hcon⟩
+  · rw [hst]; exact htab.inj
+
+theorem mem_vals_popVal (l : List (Tree.Str × Nat)) (v x : Nat) :
+    x ∈ Tree.vals (Tree.popVal l v) ↔ x ∈ Tree.vals l ∧ x ≠ v := by
+  simp only [Tree.vals, Tree.popVal, List.mem_map, List.mem_filter]
+  constructor
+  · rintro ⟨e, ⟨he, hne⟩, rfl⟩
+    exact ⟨⟨e, he, rfl⟩, by simpa using hne⟩
+  · rintro ⟨⟨e, he, rfl⟩, hne⟩
+    exact ⟨e, ⟨he, by simpa using hne⟩, rfl⟩
+
+/-- the ownership side: the replacement sits under the old label, the replaced node is free,
+starting status is handed over, nobody else is touched -/
+theorem tAfter_facts (t : Tree.Tree) (p old new : Nat) (hpo : t.parent old = some p) (hpn : t.parent new = none)
+    (hns : new ∉ t.starting p) :
+    (tAfter t p old new).label new = t.label old ∧
+    (tAfter t p old new).label old = t.label new ∧
+    (tAfter t p old new).parent new = some p ∧
+    (tAfter t p old new).parent old = none ∧
+    (t.label old, new) ∈ (tAfter t p old new).children p ∧
+    old ∉ Tree.vals ((tAfter t p old new).children p) ∧
+    (∀ x, x ≠ old → x ≠ new → (x ∈ Tree.vals ((tAfter t p old new).children p) ↔ x ∈ Tree.vals (t.children p))) ∧
+    (new ∈ (tAfter t p old new).starting p ↔ old ∈ t.starting p) ∧
+    (∀ x, x ≠ old → x ≠ new → (x ∈ (tAfter t p old new).starting p ↔ x ∈ t.starting p)) ∧
+    (∀ x, x ≠ old → x ≠ new → (tAfter t p old new).label x = t.label x ∧ (tAfter t p old new).parent x = t.parent x) ∧
+    (∀ q, q ≠ p → (tAfter t p old new).children q = t.children q ∧ (tAfter t p old new).starting q = t.starting q) := by
+  have hne : old ≠ new := by intro e; rw [e, hpn] at hpo; cases hpo
+  have hne' : new ≠ old := Ne.symm hne
+  have key : ∀ s : Tree.Tree, s = tAfter t p old new →
+      s.label = updF (updF t.label new (t.label old)) old (t.label new) ∧
+      s.parent = updF (updF t.parent old none) new (some p) ∧
+      s.children = updF t.children p (Tree.popVal (t.children p) old ++ [(t.label old, new)]) ∧
+      s.starting = updF t.starting p
+        (if old ∈ t.starting p then (t.starting p).erase old ++ [new] else (t.starting p).erase old) := by
+    intro s hs
+    subst hs
+    unfold tAfter
+    split <;>
+      simp [adopt, swapLabels, Tree.removeCore0, updF, hne, hne', *]
+  obtain ⟨hl, hp, hc, hs⟩ := key _ rfl
+  refine ⟨?_, ?_, ?_, ?_, ?_, ?_, ?_, ?_, ?_, ?_, ?_⟩
+  · rw [hl]; simp [updF, hne']
+  · rw [hl]; simp [updF]
+  · rw [hp]; simp [updF]
+  · rw [hp]; simp [updF, hne]
+  · rw [hc]; simp [updF]
+  · rw [hc]
+    simp only [updF, if_true, Tree.vals, List.map_append, List.mem_append, List.map_cons, List.map_nil,
+      List.mem_singleton]
+    rintro (h | h)
+    · have := (mem_vals_popVal (t.children p) old old).mp h
+      exact this.2 rfl
+    · exact hne h
+  · intro x hxo hxn
+    rw [hc]
+    simp only [updF, if_true, Tree.vals, List.map_append, List.mem_append, List.map_cons, List.map_nil,
+      List.mem_singleton]
+    constructor
+    · rintro (h | h)
+      · exact ((mem_vals_popVal (t.children p) old x).mp h).1
+      · exact absurd h hxn
+    · intro h
+      exact .inl ((mem_vals_popVal (t.children p) old x).mpr ⟨h, hxo⟩)
+  · rw [hs]
+    simp only [updF, if_true]
+    split
+    · rename_i ho; simp [ho]
+    · rename_i ho
+      simp only [ho, iff_false]
+      intro h
+      exact hns (List.mem_of_mem_erase h)
+  · intro x hxo hxn
+    rw [hs]
+    simp only [updF, if_true]
+    split
+    · simp only [List.mem_append, List.mem_singleton, hxn, or_false]
+      exact List.mem_erase_of_ne hxo
+    · exact List.mem_erase_of_ne hxo
+  · intro x hxo hxn
+    rw [hl, hp]
+    simp [updF, hxo, hxn]
+  · intro q hq
+    rw [hc, hs]
+    simp [updF, hq]
+
+/-- MAIN LEMMA (all repairs in place): after a successful composite-level replacement the
+stand-ins hold the replaced channels' lists, every neighbour lists them where it listed the
+replaced channels, the replaced node is free, the tree is `tAfter`, and the links are the old
+ones overwritten by the computed ones -/
+theorem compReplace_inherits (fuel : Nat) (w : W) (p old new : Nat) (w' : W)
+    (h : compReplace (Cfg.repaired fuel) w p old new = (w', .ok)) (hinv : Inv w.g)
+    (htab : Tables w old new) (hself : NoSelfConn w.g old) :
+    (∀ oc nc, (oc, nc) ∈ standIns w new old → w'.g.conns nc = w.g.conns oc) ∧
+    (∀ q, w.g.owner q ≠ old → w.g.owner q ≠ new →
+      w'.g.conns q = (w.g.conns q).map (subst (standIns w new old))) ∧
+    (∀ c, w.g.owner c = old → w'.g.conns c = []) ∧
+    w'.t = tAfter w.t p old new ∧
+    (∃ links, linksOf w p old new = .ok links ∧ w'.recv = overwrite w.recv links) := by
+  obtain ⟨hpo, hpn, hcn, hadopt, links, f, hl, _, hflag, hw'⟩ := compReplace_ok_shape fuel w p old new w' h
+  have hctx := seatCtx_of fuel w p old new f hinv htab hself hpo hpn hcn hadopt hflag
+  have hst : standIns { w with g := (copyPairs true w.g true (ioPairs w new old) []).1, val := f } new old
+      = standIns w new old :=
+    standIns_congr w _ f new old (fun oc hoc => hctx.ci.oldSame oc ((htab.oldOwn oc).mp hoc))
+  have hdc : disconnectChans
+      (seat { w with g := (copyPairs true w.g true (ioPairs w new old) []).1, val := f } new old) (w.io old).all
+      = seat { w with g := (copyPairs true w.g true (ioPairs w new old) []).1, val := f } new old :=
+    disconnectChans_noop _ _ (fun c hc => seat_old hctx c ((htab.oldOwn c).mp hc))
+  rw [hdc] at hw'
+  obtain ⟨f2, hf2⟩ := forgeSoft_shape fuel links
+    { w with val := f, t := tAfter w.t p old new,
+             g := seat { w with g := (copyPairs true w.g true (ioPairs w new old) []).1, val := f } new old }
+  rw [hf2] at hw'
+  subst hw'
+  refine ⟨?_, ?_, ?_, rfl, links, hl, rfl⟩
+  · intro oc nc hm
+    rw [← hst] at hm
+    exact seat_own hctx oc nc hm
+  · intro q hqo hqn
+    rw [← hst]
+    exact seat_neighbour hctx hinv q hqo hqn
+  · intro c hc
+    exact seat_old hctx c hc
 
 end PwVerif.Edit
